@@ -332,3 +332,8 @@ def pdf_render(case):
                         before=before[i] if i < len(before) else None,
                         after=after[i] if i < len(after) else None))
     return dict(pages=out, nbefore=len(before), nafter=len(after))
+
+
+def multi(case):
+    """dispatcher: one worker pool serves all the streams"""
+    return globals()[case['fn']](case['case'])
